@@ -266,6 +266,18 @@ Definition pushCallFrame (ofn : option fnref) (base localbase returnbase nargs n
       set_cur_frame cf'
   end.
 
+(* LState.nccalls of the running thread *)
+Definition m_yield_across : bytes := [97;116;116;101;109;112;116;32;116;111;32;121;105;101;108;100;32;97;99;114;111;115;115;32;109;101;116;97;109;101;116;104;111;100;47;67;45;99;97;108;108;32;98;111;117;110;100;97;114;121].
+
+Definition cur_nccalls (s : vstate) : Z := th_nccalls (nth (vcur s) (vthreads s) dummy_th).
+
+Definition set_nccalls (n : Z) (s : vstate) : vstate :=
+  let t := nth (vcur s) (vthreads s) dummy_th in
+  with_threads s (set_nth (vthreads s) (vcur s)
+    (mkTh (th_reg t) (th_stack t) (th_uvcache t) (th_parent t) (th_wrapped t) (th_dead t) (th_started t) n)).
+
+Definition nccalls_add (d : Z) : VM unit := vmod (fun s => set_nccalls (cur_nccalls s + d) s).
+
 Section Reentrant.
 
 (* mainLoop(L, baseframe): baseframe = index (from the bottom) of the frame whose return ends the loop *)
@@ -279,8 +291,10 @@ Definition callR (nargs nret rbase : Z) : VM unit :=
   vdo lv <- reg_get base;
   vdo fm <- metaCall lv;
   vdo _ <- pushCallFrame (fst fm) base (base + 1) rbase nargs nret lv (snd fm);
+  vdo _ <- nccalls_add 1;
   vdo s <- vget;
   vdo _ <- mainloop (Some (length (vstack s) - 1)%nat);
+  vdo _ <- nccalls_add (-1);
   if nret =? MultRet then vret tt else reg_settop (rbase + nret).
 
 Definition Call (nargs nret : Z) : VM unit := callR nargs nret (-1).
@@ -300,9 +314,11 @@ Definition PCall (nargs nret : Z) (errfunc : option value) : VM (option value) :
   fun s =>
     let sp := length (vstack s) in
     let base := rtop (vreg s) - nargs - 1 in
+    let nccalls := cur_nccalls s in
     match Call nargs nret s with
     | VRet _ s' => VRet None (SetSp sp s')
-    | VErr e s' =>
+    | VErr e s0 =>
+        let s' := set_nccalls nccalls s0 in          (* ls.nccalls = nccalls *)
         match errfunc with
         | None => VRet (Some e) (unwind sp base s')
         | Some h =>
@@ -540,7 +556,7 @@ Definition switchToParentThread (nargs : Z) (haserror kill : bool) : VM unit :=
       vdo top' <- reg_top;
       vdo _ <- reg_settop (top' - offset);
       vdo _ <- upd_thread me (fun t => mkTh (th_reg t) (th_stack t) (th_uvcache t) None (th_wrapped t)
-                                            (if kill then true else th_dead t) (th_started t));
+                                            (if kill then true else th_dead t) (th_started t) (th_nccalls t));
       vdo _ <- vmod (switch_to parent);
       vdo _ <- (if th_wrapped th then vret tt else reg_push (VBool (negb haserror)));
       reg_push_list vals
@@ -561,6 +577,11 @@ Definition callGFunction (tailcall : bool) : VM bool :=
       vdo gfnret <- gfunction b;
       vdo frame <- cur_frame;
       if gfnret <? 0 then
+        vdo sy <- vget;
+        (* a Go function (pcall, a metamethod or iterator call, a library callback) between the
+           thread's body and the yield cannot be suspended *)
+        if (cur_nccalls sy >? 0) && (match th_parent (get_thread sy (vcur sy)) with Some _ => true | None => false end)
+        then raise_msg m_yield_across else
         (* a yield: in tail position the caller's frame stays and the values of the next resume
            become the results of this call *)
         vdo _ <- (if tailcall
@@ -721,7 +742,7 @@ Definition exec_op (cl : closure) (cf : cframe) (inst : Z) (baseframe : option n
                  else let t := get_thread s (uv_thread x) in
                       set_thread s (uv_thread x)
                         (mkTh (Set_ (th_reg t) (uv_index x) v) (th_stack t) (th_uvcache t) (th_parent t)
-                              (th_wrapped t) (th_dead t) (th_started t)));
+                              (th_wrapped t) (th_dead t) (th_started t) (th_nccalls t)));
       vret false
   | OP_SETTABLE =>
       vdo o <- reg_get RA; vdo k <- rkValue p lbase B; vdo v <- rkValue p lbase C;
